@@ -5,7 +5,7 @@ import vf, ipamgen
 from vf import cN, cbool, cstr, clist
 from ipamgen import O, cjson, cdump, cranges, csubnet, history_term, IMPORTS
 
-DEPS = ["Strs", "Nets", "Pool", "NetsP", "PoolP", "Ipam", "IpamP", "CorrBase", "Ipamc"]
+DEPS = ["Strs", "Nets", "Pool", "NetsP", "PoolP", "Ipam", "IpamP", "IpamResvP", "CorrBase", "Ipamc"]
 
 P1 = {"nodeSubnets": ["10.1.0.0/24"], "subnet": "10.100.0.0/24", "gateway": "10.100.0.1", "vlan": 0,
       "ranges": [[ipamgen.s2ip("10.100.0.2"), ipamgen.s2ip("10.100.0.2")]]}
